@@ -61,7 +61,7 @@ func (f *MakeStringInputStream) Call(s *slip.Scope, args slip.List, depth int) s
 		ra := []rune(str)
 		if num, ok := args[1].(slip.Fixnum); ok {
 			start = int(num)
-			if start < 0 || len(ra) <= start {
+			if start < 0 || len(ra) < start {
 				slip.ErrorPanic(s, depth, "start, %d is outside the bounds of the string of length %d", start, len(ra))
 			}
 		} else {
